@@ -399,6 +399,22 @@ class SymEx:
     def eval_init(self, st, e, ftype):
         if e is None:
             return ('undef', None, None)
+        if e.op == 'initlist' and ir.strip_cvref(ftype or '').startswith('std::array'):
+            # aggregate initialisation of an array member: the listed elements, the rest value-initialised
+            m = re.search(r',\s*(\d+)>$', ir.strip_cvref(ftype or ''))
+            flat = []
+            stack = list(reversed(e.k))
+            while stack:
+                x = stack.pop()
+                if x is not None and x.op == 'initlist':
+                    stack.extend(reversed(x.k))
+                elif x is not None:
+                    flat.append(self.eval(st, x))
+            if m:
+                n_ = int(m.group(1))
+                if all(v == ZERO for v in flat):
+                    return ('vzeros', num(n_))
+                return ('vlist',) + tuple(flat) + (ZERO,) * max(0, n_ - len(flat))
         if e.op == 'initlist' and len(e.k) == 1:
             return self.eval(st, e.k[0])
         if e.op == 'initlist' and len(e.k) == 0:
@@ -1020,12 +1036,20 @@ class SymEx:
             k = where_asg[0]
             asg = is_flag_assign(body.k[k])
             rest = []
+            unguarded = []
             for x in body.k[k + 1:]:
                 if x is None or x.op == 'null':
                     continue
                 if x.op == 'if' and (len(x.k) < 3 or x.k[2] is None) and goes_on(x.k[0]):
                     then = x.k[1]
                     rest.extend(then.k if then is not None and then.op == 'block' else [then])
+                elif x.op == 'expr' and x.k and x.k[0] is not None and \
+                        (x.k[0].op == 'un' and x.k[0].a.get('o') in ('++', '--') or
+                         x.k[0].op == 'opcall' and x.k[0].a.get('opname') in ('operator++', 'operator--')):
+                    # a counter / iterator that is advanced whatever the flag says: it still runs once before the
+                    # loop is left
+                    rest.append(x)
+                    unguarded.append(x)
                 else:
                     return None
             if uses_in(list(body.k[:k]) + [asg.k[1]] + tail + rest):
@@ -1034,8 +1058,27 @@ class SymEx:
             # the increment still runs once before the condition fails: keep it when the counter outlives the loop
             keep_inc = [N('expr', [s.k[2]], loc=loc)] if s.op == 'for' and s.k[2] is not None and \
                 not (s.k[0] is not None and s.k[0].op == 'decl') else []
-            brk = N('if', [stopc, N('block', keep_inc + [N('break', loc=loc)], loc=loc)], loc=loc)
+            brk = N('if', [stopc, N('block', unguarded + keep_inc + [N('break', loc=loc)], loc=loc)], loc=loc)
             nbody = N('block', list(body.k[:k + 1]) + [brk] + rest, loc=body.loc, cid=body.cid)
+        elif last is not None and last.op == 'if' and len(last.k) >= 3 and last.k[2] is not None and \
+                is_flag_assign((last.k[1].k if last.k[1] is not None and last.k[1].op == 'block' else [last.k[1]])[0]
+                               if (last.k[1].k if last.k[1] is not None and last.k[1].op == 'block' else [last.k[1]]) else None) \
+                is not None and len(last.k[1].k if last.k[1].op == 'block' else [last.k[1]]) == 1:
+            # form (b'): `...; if (C) { flag = false; } else { S }`  ==  `...; if (C) { flag = false; break; } S`
+            then = last.k[1]
+            stmts = then.k if then.op == 'block' else [then]
+            a2 = is_flag_assign(stmts[0])
+            if not (a2.k[1].op == 'lit' and a2.k[1].a.get('value') is (not pos)):
+                return None
+            els = last.k[2]
+            rest = list(els.k) if els.op == 'block' else [els]
+            if uses_in(list(body.k[:-1]) + [last.k[0]] + tail + rest):
+                return None
+            keep_inc = [N('expr', [s.k[2]], loc=loc)] if s.op == 'for' and s.k[2] is not None and \
+                not (s.k[0] is not None and s.k[0].op == 'decl') else []
+            nthen = N('block', [stmts[0]] + keep_inc + [N('break', loc=loc)], loc=loc)
+            nlast = N('if', [last.k[0], nthen], loc=last.loc, cid=last.cid)
+            nbody = N('block', list(body.k[:-1]) + [nlast] + rest, loc=body.loc, cid=body.cid)
         elif last is not None and last.op == 'if' and (len(last.k) < 3 or last.k[2] is None):
             # form (b): `...; if (C) { flag = false; }`
             then = last.k[1]
